@@ -199,8 +199,12 @@ def run_concrete(ops, crash_at, torn, cut, crash2):
         fs.crash_at = None
     s2 = BS._BobState()
     loaded = snap(s2)
-    s2.finalize()
+    s2.finalize()                    # an invocation that changes nothing (bob ls, an up-to-date build)
     ok = any(loaded == a for a in allowed)
+    # ... and the start after that still finds the very same snapshot
+    s3 = BS._BobState()
+    ok = ok and snap(s3) == loaded
+    s3.finalize()
     return ok, crashed, (changed, len(ctx['saved']))
 
 
